@@ -31,10 +31,11 @@ F2q == {NF(FZero(0)), NF(FZero(1)), MinSub, FM(0, Sub(P(52), One), -1074), FM(0,
 F2 == IF Q THEN F2q ELSE FloatsOf("quick")
 (* integers and rationals mixed with them *)
 M2q == {I(0), I(1), I(-3), NI(Add(P(53), One)), NI(Sub(P(55), One)), NI(Add(P(64), One)), NI(Ten(30)), NI(P(1024)),
-        R(1, 3), R(-7, 2), NR(Add(P(64), One), P(64)), NR(One, P(1080))}
+        R(1, 3), R(-7, 2), NR(Add(P(64), One), P(64)), NR(One, P(1080)), NR(FromInt(3), P(1076)), R(7, 3)}
 M2 == IF Q THEN M2q
       ELSE M2q \cup {I(7), I(-1), NI(Neg(Add(P(53), FromInt(3)))), NI(P(55)), NI(Neg(P(63))), NI(Sub(Sub(P(1024), P(970)), One)),
-                     NI(Sub(P(1024), P(970))), NI(Neg(Ten(400))), R(1, 10), R(5, 2), NR(Add(P(54), One), Two), NR(Ten(400), FromInt(3))}
+                     NI(Sub(P(1024), P(970))), NI(Neg(Ten(400))), R(1, 10), R(5, 2), NR(Add(P(54), One), Two), NR(Ten(400), FromInt(3)),
+                     NR(Sub(Sub(P(1024), P(970)), One), One), NR(FromInt(-5), P(1077)), R(-13, 3), R(7, 5)}
 (* unary operations *)
 UnSet == FloatsOf(Tier) \cup M2 \cup {R(5, 2), R(-5, 2), R(7, 2), R(-1, 2), R(49, 100), I(-7), NI(Neg(P(64)))}
 (* transcendental functions: domain edges, overflow edges, exact special points *)
